@@ -90,7 +90,7 @@ func (c *C07) AfterTx(w *World, t *TxCtx) {
 				w.Violate("R2", "bid-below-ask", "successful BuyDirect orders[%d]: bid %s below ask %s%s", i, bo.BidPrice, ref.Ask, ref.Denom)
 				return
 			}
-			if ref.InDomain {
+			{
 				maxFee := new(big.Int)
 				if bo.MaxFeeAmount != nil {
 					maxFee = bo.MaxFeeAmount.Amount.BigInt()
@@ -293,9 +293,10 @@ func (c *C07) AfterTx(w *World, t *TxCtx) {
 		}
 	}
 	if !allInDomain {
+		// exact values that need more than 34 significant digits: judged like every other purchase, against
+		// the exact values the property names
 		c.outOfDomain++
-		w.Probe("c07_out_of_domain_buy")
-		return // exact totals beyond 34 digits: "within one base unit" is not decidable for decimal128 arithmetic
+		w.Probe("c07_buy_with_exact_values_beyond_34_digits_checked")
 	}
 	delta := func(addr, denom string) *big.Int {
 		return new(big.Int).Sub(post.BankBal(addr, denom), pre.BankBal(addr, denom))
